@@ -1,7 +1,7 @@
 (* C10 — the four mode theorems combined: whatever CreateGroupingStrategy selects, the model's
    groups satisfy the contract of that mode. *)
 From Coq Require Import NArith ZArith QArith List Bool Permutation.
-From PV Require Import Gen.CloneConst Clone.GroupSpec Clone.GroupSpecProofs Clone.GroupCommon
+From PV Require Import Gen.GroupConst Clone.GroupSpec Clone.GroupSpecProofs Clone.GroupCommon
   Clone.GroupConnected Clone.GroupComplete Clone.GroupKCore Clone.GroupStar Clone.GroupLattice Clone.GroupRun
   Clone.GroupConnectedProofs Clone.GroupCompleteProofs Clone.GroupKCoreProofs Clone.GroupStarProofs.
 Import ListNotations.
